@@ -359,6 +359,33 @@ def run(prog, rep, tier):
         if not hd:
             rep.violation(R15, PL + "|channel", "processing_loop: channel creation and thread spawn are not in the same per-source loop")
 
+    # ------------------------------------------------------------ R1.6 the instants being merged (lifts)
+    # The merge orders messages by the datetime each reader attached.  A reader that attaches the wrong
+    # instant to some messages (a fraction padded wrongly, microseconds read from the seconds field,
+    # the year inferred one too high) makes the merged output unsorted although the merge itself is
+    # right.  The rules that decide those derivations live with their own properties and are lifted.
+    import contextlib as _cl1, io as _io1
+    from common import Report as _Rep1
+    R16 = rep.rule("R1.6", "each kind of source attaches the instant its text denotes (from C04 R4.2/R4.6/R4.7, C08 R8.4/R8.11, C11 R11.4/R11.8)")
+    import c04 as _c04, c08 as _c08, c11 as _c11
+    n16 = 0
+    for mod_, pid_, rids_ in ((_c04, "C04", ("R4.2", "R4.6", "R4.7")), (_c08, "C08", ("R8.4", "R8.11")), (_c11, "C11", ("R11.4", "R11.8"))):
+        sub_ = _Rep1(pid_, "quick", dict(rep.meta))
+        sub_.finish = lambda *a, **k: 0
+        with _cl1.redirect_stdout(_io1.StringIO()):
+            mod_.run(prog, sub_, "quick")
+        for (rid_, key_, what_, det_) in sub_.violations:
+            if rid_ in rids_:
+                known_ = False
+                rep.violation(R16, key_.split("|", 1)[1] + "|" + rid_, what_)
+        for rid_ in rids_:
+            ks_ = sorted(sub_.rules.get(rid_, {}).get("keys", ()))
+            n16 += len(ks_)
+            for k_ in ks_[:6]:
+                rep.examined(R16, "%s|%s" % (rid_, k_), sample={"rule": rid_, "instance": k_})
+    if n16 < 20:
+        raise CheckerError("R1.6: only %d lifted instances" % n16)
+
     return rep.finish(
         "Static necessary-condition check of the merge: the selection is Iterator::min_by (first minimum) directly over a BTreeMap keyed by PathId "
         "with a comparator returning DateTime::cmp(first.dt(), second.dt()); every print is dominated by 'live channels == pending messages' and "
